@@ -12,6 +12,7 @@ from vlib import simloops as SL
 
 METRICS = "jesse/services/metrics.py"
 MODES_UTILS = "jesse/modes/utils.py"
+STRATEGY = "jesse/strategies/Strategy.py"
 
 
 def A(n):
@@ -248,7 +249,8 @@ def check_equity_sampling(repo, rep):
     rid = "C16-R3"
     rep.rule(rid, "equity sampling protocol in both simulators: one initial sample before the loop, one per iteration under "
                   "`i != 0 and i % 1440 == 0`, one final sample after all routes were terminated and market orders flushed; "
-                  "futures equity = wallet + sum of open positions' PnL (symbolic)")
+                  "futures equity = wallet + sum of open positions' PnL, spot equity = cash + value of all positions + reserved value of the active "
+                  "entry orders of every route (symbolic, Strategy.portfolio_value interpreted)")
     for sim in ("_step_simulator", "_skip_simulator"):
         view = SL.sim_view(repo, sim, {"save_daily_portfolio_balance", "_terminate", "execute_pending_market_orders", "_execute"},
                            guards=lambda t: "daily" if "1440" in norm(t) else None)
@@ -291,11 +293,16 @@ def check_equity_sampling(repo, rep):
             rep.instance(rid, f"{sim}|post|{' '.join(names)}")
     # futures equity formula
     def mk(dec):
-        it = Interp(repo, stubs=W.base_stubs(), samples=[{"Wt": F(1000), "pnl1": F(5), "pnl2": F(-3)}], decisions=dec)
+        it = Interp(repo, stubs=W.base_stubs(), samples=[{"Wt": F(1000), "pnl1": F(5), "pnl3": F(-3), "lev": F(3)}], decisions=dec)
         ex = Obj("FuturesExchange", name="exchange", attrs={"type": "futures", "assets": {"USDT": A("Wt")}})
         p1 = Obj("Position", name="p1", attrs={"is_open": True, "pnl": A("pnl1")})
-        p2 = Obj("Position", name="p2", attrs={"is_open": False, "pnl": A("pnl2")})
+        p2 = Obj("Position", name="p2", attrs={"is_open": False, "pnl": num(0)})
         p3 = Obj("Position", name="p3", attrs={"is_open": True, "pnl": A("pnl3")})
+        # every position knows its strategy; Strategy.portfolio_value is the repository's own property (leverage is a symbol)
+        strat = W.obj_of(repo, STRATEGY, "Strategy", "strategy", {"exchange_type": "futures", "is_spot_trading": False, "is_futures_trading": True,
+                                                                   "all_positions": {"a": p1, "b": p2, "c": p3}, "leverage": A("lev"), "balance": A("Wt")})
+        for p_ in (p1, p2, p3):
+            p_.attrs["strategy"] = strat
         app = Obj("AppState", name="store.app", attrs={"daily_balance": []})
         store = Obj("StoreClass", name="store", attrs={"exchanges": Obj("ExchangesState", name="ex", attrs={"storage": {"Sandbox": ex}}),
                                                        "positions": Obj("PositionsState", name="pos", attrs={"storage": {"a": p1, "b": p2, "c": p3}}), "app": app}, open_world=True)
@@ -308,8 +315,40 @@ def check_equity_sampling(repo, rep):
         db = out.interp.app.attrs["daily_balance"]
         want = A("Wt") + A("pnl1") + A("pnl3")
         if out.kind != "return" or len(db) != 1 or not (isinstance(db[0], R) and db[0].same(want)):
-            rep.violation(rid, "futures-equity", f"futures equity sample is {db!r}, expected wallet + PnL of the open positions = {want!r}")
+            rep.violation(rid, "futures-equity", f"futures equity sample is {db!r}, expected wallet + PnL of the open positions = {want!r} (independent of the leverage)")
         rep.instance(rid, "futures-equity", {"sample": repr(db)})
+
+    # spot equity: cash + value of every position + value of the resting entry orders of EVERY route (Strategy.portfolio_value interpreted)
+    def mk_spot(dec):
+        it = Interp(repo, stubs=W.base_stubs(), samples=[{"Wt": F(1000), "v1": F(50), "v2": F(70), "ov1": F(20), "ov2": F(30), "ov3": F(40)}], decisions=dec)
+        ex = Obj("SpotExchange", name="exchange", attrs={"type": "spot", "assets": {"USDT": A("Wt")}})
+        p1 = Obj("Position", name="p1", attrs={"is_open": True, "value": A("v1"), "pnl": A("pnl1")})
+        p2 = Obj("Position", name="p2", attrs={"is_open": True, "value": A("v2"), "pnl": A("pnl2")})
+        o1 = Obj("Order", name="o1", attrs={"is_active": True, "value": A("ov1")})
+        o2 = Obj("Order", name="o2", attrs={"is_active": False, "value": A("ov2")})
+        o3 = Obj("Order", name="o3", attrs={"is_active": True, "value": A("ov3")})
+        routes = []
+        strats = []
+        for nm, pos, eo, sym in (("s1", p1, [o1, o2], "BTC-USDT"), ("s2", p2, [o3], "ETH-USDT")):
+            st = W.obj_of(repo, STRATEGY, "Strategy", nm, {"exchange_type": "spot", "is_spot_trading": True, "is_futures_trading": False, "symbol": sym,
+                                                           "position": pos, "leverage": num(1), "balance": A("Wt"), "entry_orders": eo, "routes": routes})
+            pos.attrs["strategy"] = st
+            strats.append(st)
+            routes.append(Obj("Route", name="route-" + nm, attrs={"symbol": sym, "strategy": st, "exchange": "Sandbox"}))
+        app = Obj("AppState", name="store.app", attrs={"daily_balance": []})
+        store = Obj("StoreClass", name="store", attrs={"exchanges": Obj("ExchangesState", name="ex", attrs={"storage": {"Sandbox": ex}}),
+                                                       "positions": Obj("PositionsState", name="pos", attrs={"storage": {"a": p1, "b": p2}}), "app": app}, open_world=True)
+        it.overrides[f"{W.STORE}:store"] = store
+        it.stubs[f"{W.HELPERS}:app_currency"] = lambda i, a, k: "USDT"
+        it.app = app
+        fn = repo.func(MODES_UTILS, "save_daily_portfolio_balance")
+        return it, lambda it: it.call(FuncV(fn, repo.module(MODES_UTILS), qual="save_daily_portfolio_balance"), [], {})
+    for out in explore(mk_spot, 16):
+        db = out.interp.app.attrs["daily_balance"]
+        want = A("Wt") + A("v1") + A("v2") + A("ov1") + A("ov3")
+        if out.kind != "return" or len(db) != 1 or not (isinstance(db[0], R) and db[0].same(want)):
+            rep.violation(rid, "spot-equity", f"spot equity sample (two routes sharing the wallet) is {db!r}, expected cash + value of all positions + value of the active entry orders of every route = {want!r}")
+        rep.instance(rid, "spot-equity", {"sample": repr(db)})
     rep.floor(rid, 8)
 
 
